@@ -85,6 +85,23 @@ def run(tier):
                               "nsweep": 3, "grad": False, "points": pp, "timeout": 60.0})
             probs.append({"nd": nd, "shape": sh, "d": d, "medium": kind, "cls": cls, "tf": tf, "homeq": homeq, "src": src,
                           "grid": v, "pts": pts})
+        # targeted: 3-D sources exactly on the far face of each axis, coordinates pairwise different, under every relabelling
+        # that moves that axis (a per-axis slip in the far-edge handling shows as a difference far beyond discretisation)
+        for ax in range(3):
+            sh = (4, 5, 3)
+            d = (0.5, 0.5, 0.5)
+            v = np.full(sh, 2.0) * (1.0 + 0.3 * np.arange(sh[0]))[:, None, None]      # layered along axis 0, smooth enough
+            if ax == 0:
+                v = np.full(sh, 2.0) * (1.0 + 0.3 * np.arange(sh[1]))[None, :, None]
+            src = [0.35 * sh[0] * d[0], 0.6 * sh[1] * d[1], 0.45 * sh[2] * d[2]]
+            src[ax] = sh[ax] * d[ax]
+            for perm in [pp for pp in itertools.permutations(range(3)) if pp[ax] != ax][:3]:
+                v2 = np.ascontiguousarray(np.transpose(v, perm))
+                for (vv, dd, ss) in ((v, d, src), (v2, tuple(d[a] for a in perm), [src[a] for a in perm])):
+                    tasks.append({"op": "api_solve", "grid": vv, "gridsize": dd, "origin": (0.0, 0.0, 0.0), "sources": list(ss),
+                                  "nsweep": 3, "grad": False, "points": [[0.1, 0.1, 0.1]], "timeout": 60.0})
+                probs.append({"nd": 3, "shape": sh, "d": d, "medium": "layer-targeted", "cls": f"farface{ax}", "tf": ("perm", perm),
+                              "homeq": False, "src": tuple(src), "grid": v, "pts": [[0.1, 0.1, 0.1]]})
         if mode == "jit":     # corpus: recorded reproducer of known finding C18-3d-homog-permutation
             v = np.ones((5, 1, 5))
             d = (0.37, 0.37, 0.37)
